@@ -33,7 +33,7 @@ def assoc_fieldsets():
     return _FS
 
 
-def make(g, flight_id, with_assoc):
+def make(g, flight_id, with_assoc, flip=False):
     """Trajectory with global number g (concatenation position)."""
     from AEIC.performance.types import ThrustModeValues
     from AEIC.types import Species, SpeciesValues
@@ -47,7 +47,9 @@ def make(g, flight_id, with_assoc):
         t.add_fields(fs['complex'])
         t.ms1 = 7000.0 + g + np.arange(sm.NPTS) * 0.5
         t.msk = 300 + g
-        t.mtot = SpeciesValues({Species.CO2: 10.0 + g, Species.H2O: 20.0 + g})
+        # same species set, key order depending on the input store (flip): the layout must not depend on it
+        pairs = [(Species.CO2, 10.0 + g), (Species.H2O, 20.0 + g)]
+        t.mtot = SpeciesValues(dict(reversed(pairs) if flip else pairs))
         t.mtm = ThrustModeValues(1.0 + g, 2.0 + g, 3.0 + g, 4.0 + g)
     return t
 
@@ -121,7 +123,7 @@ def build_inputs(tmp: Path, sizes, scheme, with_assoc=False, names=None, start=0
             cpaths.append(cp)
         with TrajectoryStore.create(base_file=p, **kw) as ts:
             for j in range(sz):
-                ts.add(make(g, ids[s][j], with_assoc))
+                ts.add(make(g, ids[s][j], with_assoc, flip=(s % 2 == 1)))
                 model.append((g, ids[s][j]))
                 g += 1
         paths.append(p)
